@@ -63,6 +63,12 @@ CLAIMED = {
             "DFT definition with exact roots of unity, smoother = its definition with exp abstracted; z3 decides per "
             "mode non-negativity, Parseval, scaling / translation / reflection / axis-permutation invariance, wave "
             "numbers = Fourier wave numbers, stretch scaling, requested wave numbers returned, (0,1) prepended", "§4 C16"),
+    "C17": ("partial: bounded symbolic execution of get_length_scale: moment method with the structure factor as "
+            "symbolic (k, S) arrays (value = 2 pi sum S / sum k S, stretch covariance, scale invariance; wave numbers "
+            "themselves decided by C16); droplet-counting method through the real locate_droplets on symbolic fields "
+            "(1D 4 cells, 2D 3x3 periodic, symbolic stretch): d-th root of volume per droplet, stretch covariance, "
+            "translation invariance, scale invariance for the automatic threshold rules. Not decided: the peak-based "
+            "method (scipy minimize_scalar, float underflow) and the plane-wave accuracy clause", "§4 C17"),
     "C18": ("bounded symbolic execution of locate_droplets threshold dispatch / binarisation / size filters and of "
             "threshold_otsu on symbolic field values (Cartesian 1D 4 cells, 2D 2x2, polar 3; Otsu on 4-5 values with "
             "2-4 bins, histogram by its definition); z3 decides binary image = field > documented threshold, Otsu = "
